@@ -105,6 +105,11 @@ func (k Keeper) InitGenesis(
 			recordKeyBytes, _ := hexutil.Decode(recordKey)
 			k.AppendUndelegationToMature(ctx, epoch, recordKeyBytes)
 			k.SetUndelegationMaturityEpoch(ctx, recordKeyBytes, epoch)
+			// the hold counts are not part of the delegation module's genesis; each queued maturity
+			// stands for one hold placed by this module, which EndBlock releases when it matures.
+			if err := k.delegationKeeper.IncrementUndelegationHoldCount(ctx, recordKeyBytes); err != nil {
+				panic(fmt.Errorf("could not hold the undelegation %s: %w", recordKey, err))
+			}
 		}
 	}
 	// ApplyValidatorChanges only gets changes and hence the vote power must be set here.
